@@ -170,7 +170,9 @@ def make_system(rng):
         n = len(s)
     s = s % 1.0
     pos = s @ cell
-    z = rng.choice(VDW_OK, size=n)
+    # a share of systems made of light elements only (more atoms than the largest atomic number: per-atom arrays
+    # must never be mistaken for tables indexed by atomic number)
+    z = rng.choice(VDW_OK[:4], size=n) if rng.random() < 0.2 else rng.choice(VDW_OK, size=n)
     return Atoms(numbers=z, positions=pos, cell=cell, pbc=pbc), shape, kind
 
 
